@@ -221,6 +221,44 @@ static void sc_tcp_many(void) {
   loop_end();
 }
 
+/* ---- 6b. connect requests that fail early: synchronous error returns of uv_tcp_connect /
+   uv_pipe_connect2 must leave active_reqs alone (api_end prints !r otherwise); errors that
+   uv_pipe_connect defers are delivered through the callback exactly once -------------------- */
+static uv_connect_t cf_req[5]; static uv_tcp_t cf_tcp[2]; static uv_pipe_t cf_pipe[3];
+static void cf_cb(uv_connect_t* r, int st) {
+  ev("cb.connect%d=%s", (int) (r - cf_req), st < 0 ? uv_err_name(st) : "0");
+  pend--;
+}
+static void sc_connect_fail(void) {
+  struct sockaddr_in a; struct sockaddr_in6 a6; char longname[200]; int rc;
+  if (loop_begin()) return;
+  uv_tcp_init(&L, &cf_tcp[0]); uv_tcp_init(&L, &cf_tcp[1]);
+  uv_pipe_init(&L, &cf_pipe[0], 0); uv_pipe_init(&L, &cf_pipe[1], 0); uv_pipe_init(&L, &cf_pipe[2], 0);
+  /* no route from a loopback-only sandbox: connect() fails at once (ENETUNREACH or the like) */
+  uv_ip4_addr("203.0.113.1", 9, &a);
+  rc = APIX("tcp_connect_unreachable", uv_tcp_connect(&cf_req[0], &cf_tcp[0], (struct sockaddr*) &a, cf_cb));
+  if (rc == 0) pend++;
+  /* socket already of the other family: synchronous error from connect() */
+  uv_ip4_addr("127.0.0.1", 0, &a);
+  if (APIX("tcp_bind", uv_tcp_bind(&cf_tcp[1], (struct sockaddr*) &a, 0)) == 0) {
+    uv_ip6_addr("::1", 9, &a6);
+    rc = APIX("tcp_connect_wrong_family", uv_tcp_connect(&cf_req[1], &cf_tcp[1], (struct sockaddr*) &a6, cf_cb));
+    if (rc == 0) pend++;
+  }
+  /* name longer than sun_path with UV_PIPE_NO_TRUNCATE: synchronous UV_EINVAL of uv_pipe_connect2 */
+  memset(longname, 'x', sizeof longname - 1); longname[sizeof longname - 1] = 0;
+  rc = APIX("pipe_connect2_toolong", uv_pipe_connect2(&cf_req[2], &cf_pipe[0], longname, strlen(longname), UV_PIPE_NO_TRUNCATE, cf_cb));
+  if (rc == 0) pend++;
+  /* an empty name through uv_pipe_connect: the same early error, deferred to the callback */
+  api_begin("pipe_connect_empty"); uv_pipe_connect(&cf_req[3], &cf_pipe[1], "", cf_cb); api_end("pipe_connect_empty", 0, 0); pend++;
+  /* missing socket file: connect() fails at once, reported through the callback */
+  api_begin("pipe_connect_missing"); uv_pipe_connect(&cf_req[4], &cf_pipe[2], "no-such.sock", cf_cb); api_end("pipe_connect_missing", 0, 0); pend++;
+  ev("reqs_pending=%u", L.active_reqs.count);
+  run_pending();
+  ev("reqs_after=%u", L.active_reqs.count);
+  loop_end();
+}
+
 /* ---- 7. udp ----------------------------------------------------------------------- */
 static uv_udp_t u1, u2; static uv_udp_send_t us[4]; static int udp_got;
 static void udp_send_cb(uv_udp_send_t* r, int st) { cbev(r == &us[0] ? "udp_send0" : r == &us[1] ? "udp_send1" : "udp_send2", st); pend--; }
@@ -886,7 +924,7 @@ static void su_close(void) {
 
 #define SCENARIOS \
   {"loop", sc_loop}, {"basic", sc_basic}, {"tcp", sc_tcp}, {"tcp_big", sc_tcp_big}, {"pipe", sc_pipe}, \
-  {"pipe_big", sc_pipe_big}, {"tcp_refused", sc_tcp_refused}, {"tcp_many", sc_tcp_many}, {"udp", sc_udp}, \
+  {"pipe_big", sc_pipe_big}, {"tcp_refused", sc_tcp_refused}, {"tcp_many", sc_tcp_many}, {"connect_fail", sc_connect_fail}, {"udp", sc_udp}, \
   {"fs_sync", sc_fs_sync}, {"fs_async", sc_fs_async}, {"fs_event", sc_fs_event}, {"fs_poll", sc_fs_poll}, \
   {"spawn", sc_spawn}, {"spawn_fail", sc_spawn_fail}, {"spawn_many", sc_spawn_many}, {"signal", sc_signal}, \
   {"dns", sc_dns}, {"os", sc_os}, {"work", sc_work}, {"pairs", sc_pairs}, {"ipc", sc_ipc}, {"sysinfo", sc_sysinfo}, \
